@@ -19,7 +19,7 @@ from vmon.models import c03_layout as M
 PROPERTY = "C03"
 LEVEL = "exploration"
 SHARDS = {"quick": 8, "thorough": 16}
-BUDGET = {"quick": 26.0, "thorough": 420.0}
+BUDGET = {"quick": 30.0, "thorough": 420.0}
 REQUIRE = {
     "cases": 5000,
     "segments_decoded": 5000,
@@ -45,6 +45,16 @@ REQUIRE = {
     "text_only_change_cases": 150,
     "rows_before_render_checks": 2500,
     "random_cases": 200,
+    "markup_cases": 1500,
+    "markup_empty_cases:bare-empty": 800,
+    "markup_empty_cases:attributed-empty": 300,
+    "malformed_utf8_cases": 1000,
+    "malformed_utf8_cases:F4-above-10FFFF": 100,
+    "malformed_utf8_cases:lead-F5-F7": 50,
+    "malformed_utf8_cases:overlong": 100,
+    "malformed_utf8_cases:surrogate": 50,
+    "malformed_utf8_cases:truncated-sequence": 100,
+    "malformed_utf8_cases:lone-continuation": 50,
     "fixed_finding_directed_cases": 2000,
     "pack_fixed_checks": 500,
     "pack_fixed_multi_line": 200,
@@ -62,7 +72,7 @@ REQUIRE = {
     "encoding_interleave_cases": 2000,
     "encoding_switches_same_width": 1200,
     "encoding_switches_same_width_trimmed_ellipsis": 150,
-    "exh_strings:P0": 60,
+    "exh_strings:P0": 15,
     "dec_glyph_rows": 20,
     "enc:utf8/str": 2000,
     "enc:utf8/bytes": 2000,
@@ -252,6 +262,74 @@ def set_enc(st, enc):
         st.cur_enc = enc
 
 
+def build_markup(spec):
+    """JSON-safe markup spec -> urwid text markup: ["L", e...] list, ["T", attr, e] tuple, str / bytes leaf"""
+    if isinstance(spec, (str, bytes)):
+        return spec
+    if spec[0] == "L":
+        return [build_markup(e) for e in spec[1:]]
+    return (spec[1], build_markup(spec[2]))
+
+
+def markup_leaves(spec, attr=None, out=None):
+    out = [] if out is None else out
+    if isinstance(spec, (str, bytes)):
+        out.append((attr, spec))
+    elif spec[0] == "L":
+        for e in spec[1:]:
+            markup_leaves(e, attr, out)
+    else:
+        markup_leaves(spec[2], spec[1], out)
+    return out
+
+
+def markup_text(spec):
+    leaves = markup_leaves(spec)
+    if any(isinstance(t, bytes) for _a, t in leaves):
+        return b"".join(t for _a, t in leaves)
+    return "".join(t for _a, t in leaves)
+
+
+def markup_shape(spec):
+    """where the empty strings sit: kind(prev,next) with kind bare|attributed, neighbours attr|plain|start|end"""
+    leaves = markup_leaves(spec)
+    out = []
+    for i, (a, t) in enumerate(leaves):
+        if len(t):
+            continue
+        prev = next((("attr" if pa is not None else "plain") for pa, pt in reversed(leaves[:i]) if len(pt)), "start")
+        nxt = next((("attr" if na is not None else "plain") for na, nt in leaves[i + 1 :] if len(nt)), "end")
+        k = f"{'bare' if a is None else 'attributed'}-empty({prev},{nxt})"
+        if k not in out:
+            out.append(k)
+    return "+".join(out[:2]) or "no-empty"
+
+
+def malformed_class(b):
+    """abstract class of the first undecodable unit of a utf-8 byte text (None if well-formed)"""
+    i = 0
+    while i < len(b):
+        cp, j = M.utf8_one(b, i)
+        if cp is None:
+            x = b[i]
+            nxt = b[i + 1] if i + 1 < len(b) else None
+            if 0x80 <= x <= 0xBF:
+                return "lone-continuation"
+            if x in (0xC0, 0xC1) or (x == 0xE0 and nxt is not None and 0x80 <= nxt < 0xA0) or (x == 0xF0 and nxt is not None and 0x80 <= nxt < 0x90):
+                return "overlong"
+            if x == 0xED and nxt is not None and 0xA0 <= nxt <= 0xBF:
+                return "surrogate"
+            if x == 0xF4 and nxt is not None and 0x90 <= nxt <= 0xBF:
+                return "F4-above-10FFFF"
+            if 0xF5 <= x <= 0xF7:
+                return "lead-F5-F7"
+            if x >= 0xF8:
+                return "lead-F8-FF"
+            return "truncated-sequence"
+        i = j
+    return None
+
+
 def check_case(ctx, st, case, collect, fresh=False, light=False):
     """Evaluate one case on the real code; append (clause, kind, msg) to collect.  Returns nothing."""
     import urwid
@@ -286,7 +364,11 @@ def check_case(ctx, st, case, collect, fresh=False, light=False):
                 if prev["wrap"] != wrap:
                     tw.wrap = wrap
             else:
-                tw = urwid.Text(text, align=align, wrap=wrap)
+                tw = urwid.Text(build_markup(case["markup_spec"]) if "markup_spec" in case else text, align=align, wrap=wrap)
+                if "markup_spec" in case:
+                    C["markup_cases"] += 1
+                    if tw.text != text or type(tw.text) is not type(text):
+                        collect.append(("markup", "text!=concatenation-of-leaves", f"text {tw.text!r} expected {text!r}"))
             if not fresh:
                 st.widgets[key] = tw
         else:
@@ -495,16 +577,25 @@ def check_window(ctx, st, case, collect):
 
 # ------------------------------------------------------------------ signatures, shrinking, reporting
 
+_LRU_OBJECTS = None
+
+
 def clear_module_caches():
     """forget every functools cache in urwid modules so that a witness is judged from a clean process state"""
     import sys
 
-    for name, mod in list(sys.modules.items()):
-        if name == "urwid" or name.startswith("urwid."):
-            for v in list(vars(mod).values()):
-                cc = getattr(v, "cache_clear", None)
-                if callable(cc) and hasattr(v, "cache_info"):
-                    cc()
+    global _LRU_OBJECTS
+    if _LRU_OBJECTS is None or _LRU_OBJECTS[0] != len(sys.modules):
+        found = []
+        for name, mod in list(sys.modules.items()):
+            if name == "urwid" or name.startswith("urwid."):
+                for v in list(vars(mod).values()):
+                    cc = getattr(v, "cache_clear", None)
+                    if callable(cc) and hasattr(v, "cache_info"):
+                        found.append(cc)
+        _LRU_OBJECTS = (len(sys.modules), found)
+    for cc in _LRU_OBJECTS[1]:
+        cc()
 
 
 def evaluate(ctx, case):
@@ -574,6 +665,25 @@ def shrink(ctx, case, core):
             c = dict(cur, align="left")
             if still(c):
                 cur = c
+        if "markup_spec" in cur:
+            # only whole top-level elements of a list markup are removed; the text follows the markup
+            sp = cur["markup_spec"]
+            i = 1
+            while isinstance(sp, list) and sp[0] == "L" and i < len(sp) and len(sp) > 2:
+                sp2 = sp[:i] + sp[i + 1 :]
+                c = dict(cur, markup_spec=sp2, text=markup_text(sp2))
+                if still(c):
+                    cur, sp = c, sp2
+                else:
+                    i += 1
+            for wd in range(1, cur["width"]):
+                c = dict(cur, width=wd)
+                if still(c):
+                    cur = c
+                    break
+            if cur == before:
+                break
+            continue
         if cur["enc"] != "utf-8":
             try:
                 t = cur["text"]
@@ -699,7 +809,12 @@ def report(ctx, case, collected, cache=None):
             parts.append(f"align={small['align'] if small['align'] != 'left' else 'any'}")
         parts.append(f"enc={mode if small['enc'] != 'utf-8' else 'any'}")
         parts.append(f"text={ttype if ttype == 'bytes' else 'any'}")
-        parts.append(f"shape={D.shape(small['width'])}")
+        shape = D.shape(small["width"])
+        if "markup_spec" in small:
+            shape = "markup:" + markup_shape(small["markup_spec"])
+        elif ttype == "bytes" and mode == "utf8" and malformed_class(small["text"]):
+            shape = "malformed-utf8:" + malformed_class(small["text"])
+        parts.append(f"shape={shape}")
         if path != "fresh":
             parts.append(path)
         sig = "|".join(parts)
@@ -744,6 +859,9 @@ def witness_code(c):
             pre += f"t.align={c['align']!r}; "
         if p["wrap"] != c["wrap"]:
             pre += f"t.wrap={c['wrap']!r}; "
+    elif "markup_spec" in c:
+        pre = f"t=urwid.Text({build_markup(c['markup_spec'])!r}, align={c['align']!r}, wrap={c['wrap']!r}); "
+        return head + pre + f"print(t.render(({c['width']},)).text, list(t.render(({c['width']},)).content()))"
     else:
         pre = f"t=urwid.Text({c['text']!r}, align={c['align']!r}, wrap={c['wrap']!r}); "
     return head + pre + f"print(t.get_line_translation({c['width']}), t.rows(({c['width']},))); print(t.render(({c['width']},)).text)"
@@ -759,7 +877,11 @@ def run_one(ctx, st, case, light=False):
         key = (case["enc"], isinstance(case["text"], bytes))
         case["prev"] = st.prev.get(key)
         case["hist"] = list(st.recent)
-        check_case(ctx, st, case, out, light=light)
+        if "markup_spec" in case:
+            case["prev"] = None
+            check_case(ctx, st, case, out, fresh=True, light=light)
+        else:
+            check_case(ctx, st, case, out, light=light)
         ent = [case["enc"], case["width"], case["wrap"]]
         if ent in st.recent:
             st.recent.remove(ent)
@@ -859,6 +981,56 @@ def _run(ctx):
                 order = ENC_CYCLE if k % 2 else ENC_CYCLE[::-1]
                 interleave(ctx, st, s0, w, wrap, ALIGNS[k % 3], order, as_bytes=bool(k // 2 % 2))
 
+    # ---- directed, never skipped: text markup with empty strings at every position (bare "" / b"" and attributed ("b","")
+    # between attributed, un-attributed and nested elements).  The text is the concatenation of the leaves; an empty
+    # leaf must not change what is rendered (content() rows are compared byte for byte with the text rows).
+    def mk(spec, as_bytes):
+        if isinstance(spec, str):
+            return spec.encode() if as_bytes else spec
+        if spec[0] == "L":
+            return ["L", *[mk(e, as_bytes) for e in spec[1:]]]
+        return ["T", spec[1], mk(spec[2], as_bytes)]
+
+    el7 = ["x", ["T", "a", "x"], ["T", "b", "yz"], "", ["T", "b", ""], ["L", ["T", "a", "x"], ""], ["T", "a", ["L", "x", "", "yz"]]]
+    el5 = ["x", ["T", "a", "x"], ["T", "b", "yz"], "", ["T", "b", ""]]
+    specs = [["L", *t] for n in (1, 2, 3) for t in itertools.product(el7, repeat=n)] + [["L", *t] for t in itertools.product(el5, repeat=4)]
+    specs += [["T", "a", ["L", *t]] for t in itertools.product(["x", "", "yz"], repeat=3)]
+    k = 0
+    for spec in specs:
+        if not any(len(t) == 0 for _a, t in markup_leaves(spec)):
+            continue
+        for as_bytes in (False, True):
+            sp = mk(spec, as_bytes)
+            text = markup_text(sp)
+            for w in (2, 6):
+                k += 1
+                if not ctx.mine(k):
+                    continue
+                for wi, wrap in enumerate(WRAPS if w == 2 else (WRAPS[k % 4],)):
+                    run_one(ctx, st, {"enc": "utf-8", "text": text, "markup_spec": sp, "width": w, "wrap": wrap, "align": ALIGNS[(k + wi) % 3]}, light=True)
+                    ctx.count(f"markup_empty_cases:{markup_shape(sp).split('+')[0].split('(')[0]}")
+
+    # ---- directed, never skipped: malformed UTF-8 in byte texts (each undecodable byte is one column)
+    bad = [
+        b"\xf4\x90\x80\x80", b"\xf4\x9f\xbf\xbf", b"\xf4\xa0\x80\x80", b"\xf4\xbf\xbf\xbf", b"\xf5\x80\x80\x80", b"\xf7\xbf\xbf\xbf",
+        b"\xf8\x88\x80\x80\x80", b"\xff", b"\xfe", b"\xc0\x80", b"\xc1\xbf", b"\xe0\x80\x80", b"\xe0\x9f\xbf", b"\xf0\x80\x80\x80", b"\xf0\x8f\xbf\xbf",
+        b"\xed\xa0\x80", b"\xed\xbf\xbf", b"\x80", b"\xbf", b"\xe6\xbc", b"\xe6", b"\xf0\x9f\x98", b"\xf0\x9f", b"\xc3", b"\xf4\x8f\xbf\xbf", b"\xf0\x90\x80\x80",
+    ]
+    frames = [(b"", b""), (b"a", b"b"), (b"ab ", b" cd"), ("漢".encode(), "字".encode()), (b"a\xcc\x81", b"\n x"), (b"", b"\xe6\xbc\xa2"), (b"\xe6\xbc", b"\xa2")]
+    k = 0
+    for bseq in bad:
+        for pre, post in frames:
+            text = pre + bseq + post
+            cls = malformed_class(text) or "well-formed"
+            for w in (1, 2, 3, 4, 6):
+                k += 1
+                if not ctx.mine(k):
+                    continue
+                for wi, wrap in enumerate(WRAPS):
+                    run_one(ctx, st, {"enc": "utf-8", "text": text, "width": w, "wrap": wrap, "align": ALIGNS[(k + wi) % 3]}, light=bool(k % 2))
+                    ctx.count("malformed_utf8_cases")
+                    ctx.count(f"malformed_utf8_cases:{cls}")
+
     # ---- directed: the ellipsis clauses under EVERY encoding name of urwid's wide class and the multi-byte codecs it
     # classes as narrow (the mark must be measured in the target encoding), plus the 8-bit and utf-8 families
     k = 0
@@ -953,7 +1125,7 @@ def _run(ctx):
             if "\t" not in tup and "\x7f" not in tup:
                 continue
             k += 1
-            if not ctx.mine(k) or not ctx.more(0.3):
+            if not ctx.mine(k) or not ctx.more(0.6):
                 continue
             s0 = "".join(tup)
             for w in widths:
@@ -996,7 +1168,7 @@ def _run(ctx):
                     text = to_bytes(t, enc, mode_of(enc)) if as_bytes else t
                     for w in long_widths:
                         k += 1
-                        if not ctx.mine(k) or not ctx.more(0.5):
+                        if not ctx.mine(k) or not ctx.more(0.72):
                             continue
                         for wi, wrap in enumerate(WRAPS):
                             run_one(ctx, st, {"enc": enc, "text": text, "width": w, "wrap": wrap, "align": ALIGNS[(k + wi) % 3]}, light=True)
@@ -1011,7 +1183,7 @@ def _run(ctx):
     #   PB  the other text type of PA (utf-8 bytes; euc-jp / iso8859-1 str)
     #   PC  full alignment product on a stride of the longer strings
     # Each shard counts the phases it completed (counter exh_phase_complete:<P> == number of shards when complete).
-    frac = ctx.pick(0.75, 0.82)
+    frac = ctx.pick(0.86, 0.86)
     ctx.extra["exhaustive_maxlen"] = maxlen
     short = ctx.pick(3, 4)
 
